@@ -7,8 +7,10 @@ package stage
 // move sequence is a crash point (decision over k).
 
 import (
+	"os"
 	"path/filepath"
 	"strings"
+	"time"
 
 	"github.com/arm-doe/sts"
 	"github.com/arm-doe/sts/internal/verifrt"
@@ -16,6 +18,65 @@ import (
 
 func init() {
 	verifrt.Register("H_C06_Crash", H_C06_Crash)
+}
+
+// vDiskLogger is an exact receive logger whose records are durable: one line
+// per record in <root>/recv.log (so the log append is a crash point like any
+// other file-system call and survives in the crash image).
+type vDiskLogger struct {
+	v    *verifrt.T
+	path string
+}
+
+func (l *vDiskLogger) Received(f sts.Received) {
+	fh, err := os.OpenFile(l.path, os.O_APPEND|os.O_CREATE|os.O_WRONLY, 0o644)
+	if err != nil {
+		panic("reference logger: " + err.Error())
+	}
+	fh.WriteString(f.GetName() + "|" + f.GetHash() + "\n")
+	fh.Close()
+}
+
+func (l *vDiskLogger) lines() [][2]string {
+	b, err := os.ReadFile(l.path)
+	if err != nil {
+		return nil
+	}
+	var out [][2]string
+	for _, ln := range strings.Split(string(b), "\n") {
+		if p := strings.Split(ln, "|"); len(p) == 2 {
+			out = append(out, [2]string{p[0], p[1]})
+		}
+	}
+	return out
+}
+
+func (l *vDiskLogger) WasReceived(name, hash string, after, before time.Time) bool {
+	for _, r := range l.lines() {
+		if r[0] == name && (hash == "" || r[1] == hash) {
+			return true
+		}
+	}
+	return false
+}
+
+func (l *vDiskLogger) Parse(handler func(name, renamed, hash string, size int64, t time.Time) bool, after, before time.Time) bool {
+	for _, r := range l.lines() {
+		if handler(r[0], "", r[1], 0, l.v.Now().Add(-time.Minute)) {
+			return true
+		}
+	}
+	return false
+}
+
+func (l *vDiskLogger) count(name, hash string) int {
+	n := 0
+	for _, r := range l.lines() {
+		if r[0] == name && r[1] == hash {
+			n++
+		}
+	}
+	return n
 }
 
 // One file sent in two parts (symbolic size and split point); the receiver
@@ -37,18 +98,24 @@ func H_C06_Crash(v *verifrt.T) {
 		prev = "p"
 	}
 	var e *vEnv
-	ackBefore := map[int]bool{}
-	statusBefore := sts.ConfirmNone
+	root := v.TempRoot()
+	dlog := &vDiskLogger{v: v, path: filepath.Join(root, "recv.log")}
+	mkEnv := func() {
+		e = &vEnv{v: v, root: root, stage: filepath.Join(root, "stage"), final: filepath.Join(root, "final"), logger: &vLogger{v: v}}
+		e.s = New("src", e.stage, e.final, dlog, nil, nil)
+	}
+	dup := v.Param("DUP", 0) == 1 && v.Choose("whole-file-sent-twice", 2) == 1
 	crashed := v.RunUntilCrash(k, func() {
-		e = newEnv(v)
-		if e.sendPart("a", prev, h1, size, 0, m, "v1") == nil {
-			ackBefore[0] = true
-		}
-		if e.sendPart("a", prev, h1, size, m, size, "v1") == nil {
-			ackBefore[1] = true
-		}
+		mkEnv()
+		e.sendPart("a", prev, h1, size, 0, m, "v1")
+		e.sendPart("a", prev, h1, size, m, size, "v1")
 		v.Quiesce()
-		statusBefore = e.s.GetFileStatus("a", v.Now())
+		if dup {
+			// lost answer: the sender transmits the whole file once more
+			e.sendPart("a", prev, h1, size, 0, m, "v1")
+			e.sendPart("a", prev, h1, size, m, size, "v1")
+			v.Quiesce()
+		}
 	})
 	if !crashed {
 		v.Reach("no-crash")
@@ -58,18 +125,11 @@ func H_C06_Crash(v *verifrt.T) {
 	v.Reach("crashed")
 	// restart (optionally the recovering receiver dies as well, before its
 	// k2-th file-system call, and a third receiver recovers)
-	root := v.TempRoot()
 	boot := func() {
-		e = &vEnv{v: v, root: root, stage: filepath.Join(root, "stage"), final: filepath.Join(root, "final"), logger: &vLogger{v: v}}
-		if logged(v, e) {
-			// the receive log is durable: what was logged before the crash is in it
-			e.logger.records = append(e.logger.records, vRecord{name: "a", hash: h1, size: size})
-		}
-		e.s = New("src", e.stage, e.final, e.logger, nil, nil)
+		mkEnv()
 		e.s.Recover()
 		v.Quiesce()
 	}
-	wasLogged := logged(v, &vEnv{final: filepath.Join(root, "final")})
 	if v.Param("CRASH2", 0) == 1 {
 		k2 := 1 + v.Choose("second-crash-before-fs-call", v.Param("MAXK2", 20))
 		if v.RunUntilCrash(k2, boot) {
@@ -79,14 +139,17 @@ func H_C06_Crash(v *verifrt.T) {
 	} else {
 		boot()
 	}
-	if wasLogged && e.logger.count("a", h1) == 0 {
-		e.logger.records = append(e.logger.records, vRecord{name: "a", hash: h1, size: size})
-	}
 	// nothing unvalidated is delivered by recovery
 	for _, f := range v.Files(e.final) {
 		if !strings.HasSuffix(f, ".lck") {
 			v.Assert(f == "a" && v.FileIs(filepath.Join(e.final, f), "v1"), "C06 recovery delivers nothing that is not the validated version")
 		}
+	}
+	// the downstream consumer takes what has been delivered so far
+	deliveredEarly := v.Exists(filepath.Join(e.final, "a"))
+	if deliveredEarly {
+		os.Remove(filepath.Join(e.final, "a"))
+		v.Reach("delivered-before-resumption")
 	}
 	// the sender resumes: ask, re-send what is not held, poll
 	parts := [][2]int64{{0, m}, {m, size}}
@@ -107,20 +170,16 @@ func H_C06_Crash(v *verifrt.T) {
 	v.Quiesce()
 	v.Note("end: " + strings.Join(v.Files(root), " "))
 	final := filepath.Join(e.final, "a")
-	v.Assert(v.FileIs(final, "v1"), "C06 after recovery and resumption the file is delivered under its proper name, byte-identical")
+	if deliveredEarly {
+		v.Assert(!v.Exists(final), "C06 a file already logged and delivered is neither requested nor delivered again")
+	} else {
+		v.Assert(v.FileIs(final, "v1"), "C06 after recovery and resumption the file is delivered under its proper name, byte-identical")
+	}
 	for _, f := range v.Files(e.final) {
 		v.Assert(f == "a" || f == "p", "C06 nothing but the delivered files is left in the final directory")
 	}
 	v.Assert(e.s.GetFileStatus("a", v.Now()) == sts.ConfirmPassed, "C06 the delivered file is confirmed")
-	n := e.logger.count("a", h1)
+	n := dlog.count("a", h1)
 	v.Assert(n >= 1 && n <= 2, "C06 only a crash between logging and moving may repeat the log record")
-	_ = statusBefore
 }
 
-// logged: does the crash image show that the file had been logged before the
-// crash? The reference logger lives in memory, so the harness reconstructs the
-// durable log from the one externally visible effect that follows it: the move
-// into the final directory (or its first half) has started.
-func logged(v *verifrt.T, e *vEnv) bool {
-	return v.Exists(filepath.Join(e.final, "a")) || v.Exists(filepath.Join(e.final, "a.lck"))
-}
